@@ -450,6 +450,7 @@ theorem ctx_once {E : Env} {w : World} (g : OnceInv E w) (c : Ctx) (h1 : c.fcall
 /-- Side condition: traits added at run time have a total default. -/
 def OpTotal (E : Env) : WOp → Prop
   | .addTrait _ _ t => TotalDefault E t
+  | .del _ _ => False        -- a reset legitimately makes the next read compute the default again
   | _ => True
 
 theorem step_onceInv {E : Env} {w : World} (g : OnceInv E w) (op : WOp) (hop : OpTotal E op) :
@@ -538,6 +539,10 @@ theorem step_onceInv {E : Env} {w : World} (g : OnceInv E w) (op : WOp) (hop : O
       simp only []
       exact setInst_once g i o { o with on := (({ on := o.on } : OSt).regAny k false).on } hi rfl rfl
         (fun p hp => g.total _ (Or.inr ⟨o, List.mem_of_getElem? hi, p, hp, rfl⟩))
+  | del i n => exact hop.elim
+  | query i =>
+    simp only [World.step]
+    cases w.insts[i]? <;> exact g
   | addTrait i n t =>
     simp only [World.step, World.addTrait]
     cases hi : w.insts[i]? with
